@@ -30,6 +30,27 @@ PRIMES = [2.0, 3.0, 5.0, 7.0, 11.0, 13.0, 17.0, 19.0, 23.0, 29.0, 31.0, 37.0, 41
 
 # ---------------------------------------------------------------------------------------------------------------
 # flat description of the scalar coordinates of a spec
+class SteppedVariable(ContinuousVariable):
+    """a user-defined variable kind: a continuous variable whose own correct() clips AND snaps to a grid of width `step`
+    (anchored at the lower bound).  Users may subclass the variable types; the library must keep calling THEIR correct()."""
+    step: float = 0.25
+
+    def correct(self, value):
+        v = super().correct(value)
+        if not np.isfinite(v):
+            return v                # like the base class: a NaN stays a NaN (and is reported as a non-member)
+        k = round((v - self.lower_bound) / self.step)
+        return float(min(self.upper_bound, max(self.lower_bound, self.lower_bound + k * self.step)))
+
+    def randomize(self):
+        return self.correct(super().randomize())
+
+
+def on_grid(lb, step, c):
+    k = (c - lb) / step
+    return abs(k - round(k)) < 1e-6
+
+
 def flat_vars(spec_vars):
     """-> list of ("c", lb, ub) | ("d", choices) | ("p", n_items) per scalar coordinate, in task order"""
     out = []
@@ -37,6 +58,8 @@ def flat_vars(spec_vars):
         k = v[0]
         if k == "c":
             out.append(("c", float(v[1]), float(v[2])))
+        elif k == "cs":
+            out.append(("c", float(v[1]), float(v[2]), float(v[3])))
         elif k in ("cm", "mo"):
             out.extend(("c", float(a), float(b)) for a, b in zip(v[1], v[2]))
         elif k == "d":
@@ -56,7 +79,7 @@ def var_sizes(spec_vars):
     out = []
     for v in spec_vars:
         k = v[0]
-        out.append({"c": 1, "d": 1, "p": 1}.get(k) or (len(v[1]) if k in ("cm", "mo", "dm") else v[1]))
+        out.append({"c": 1, "cs": 1, "d": 1, "p": 1}.get(k) or (len(v[1]) if k in ("cm", "mo", "dm") else v[1]))
     return out
 
 
@@ -82,6 +105,8 @@ def member(flat, pos):
                 return f"inf-coordinate: coord {i} = {c}"
             if not (v[1] <= c <= v[2]):
                 return f"out-of-bounds: coord {i} = {c!r} not in [{v[1]!r}, {v[2]!r}]"
+            if len(v) > 3 and not on_grid(v[1], v[3], c):
+                return f"off-grid: coord {i} = {c!r} is not on the variable's grid (step {v[3]!r} from {v[1]!r})"
         elif k == "d":
             if isinstance(c, (bool, np.bool_)) or not isinstance(c, _INT):
                 return f"index-type: coord {i} is {type(c).__name__} ({c!r})"
@@ -224,6 +249,8 @@ def _ret(kind, v):
         return np.float64(v)
     if kind == "np32":
         return np.float32(v)
+    if kind == "np0d":
+        return np.array(v)          # a 0-dimensional array, e.g. np.squeeze(x.T @ Q @ x)
     if kind == "int":
         return int(round(v)) if math.isfinite(v) else v
     return v
@@ -258,7 +285,7 @@ def decode(spec_vars, pos, perm_labels=None):
     for j, v in enumerate(spec_vars):
         k = v[0]
         name = f"v{j}"
-        if k == "c":
+        if k in ("c", "cs"):
             out[name] = pos[i]; i += 1
         elif k in ("cm", "mo"):
             n = len(v[1]); out[name] = list(pos[i:i + n]); i += n
@@ -363,6 +390,14 @@ class _MonMixin:
         d = data.get("delay")
         if d:
             _delay(d, x)
+        if data.get("spec", {}).get("mutate"):
+            # some users decode or normalise the argument in place; the library hands the objective a private list
+            out_ = eval_spec(spec, x, flat)
+            try:
+                x[0] = -12345.678       # outside every battery task's bounds / not an index
+            except Exception:
+                pass
+            return out_
         ra = data.get("raise_after")
         if ra is not None:
             cnt = _RAISE_COUNT.get(rid, 0) + 1
@@ -394,6 +429,8 @@ def build_variables(spec_vars):
         name = f"v{j}"
         if k == "c":
             out.append(ContinuousVariable(name=name, lower_bound=v[1], upper_bound=v[2]))
+        elif k == "cs":
+            out.append(SteppedVariable(name=name, lower_bound=v[1], upper_bound=v[2], step=v[3]))
         elif k == "cm":
             out.append(ContinuousMultiVariable(name=name, lower_bounds=list(v[1]), upper_bounds=list(v[2])))
         elif k == "mo":
@@ -453,7 +490,7 @@ def kind_of_spec(spec):
     ks = {v[0] for v in spec["vars"]}
     if spec.get("weights") is not None:
         return "multiobjective"
-    if ks <= {"c", "cm"}:
+    if ks <= {"c", "cm", "cs"}:
         return "continuous"
     if ks == {"p"}:
         return "permutation"
@@ -468,7 +505,7 @@ def kind_of_spec(spec):
 
 def is_strict_class(spec):
     """continuous single / multi / multi-objective: the class on which C06 is checked strictly"""
-    return {v[0] for v in spec["vars"]} <= {"c", "cm", "mo"}
+    return {v[0] for v in spec["vars"]} <= {"c", "cm", "mo", "cs"}
 
 
 def selftest_objectives(rng):
